@@ -25,7 +25,8 @@ RULE = (
     "into a LocalHashFileDB or HashFileDB, a palette of contents with roles (cached / uncached / "
     "uncached with a corrupt unprotected object planted under its name), a prior workspace (absent, "
     "plain files, or a real earlier checkout with a drawn link type) followed by drawn user edits "
-    "(modify = unlink+create, delete, add, file->directory, directory->file, empty directory), "
+    "(modify = unlink+create, delete, add, file->directory, directory->file at any depth including "
+    "the whole root of a tree target replaced by a plain cached/uncached file, empty directory), "
     "optionally target objects dropped from the cache, configured link types, relink on/off, state "
     "on/off and prompt None / always-decline (plus a small accepting arm that only checks that no "
     "PromptError is raised), force=False. Oracle: byte snapshots of the workspace before/after; every "
@@ -47,8 +48,8 @@ RULE = (
 )
 ASSUMPTIONS = [
     "user edits never write through a hard/symlink into the cache (modify = unlink + create)",
-    "a tree target is checked out onto a directory or a missing path (a plain file sitting at the "
-    "root of a tree target makes os.makedirs raise FileExistsError - not generated)",
+    "a plain file sitting at the root of a tree target: any exception counts as the refusal (the "
+    "unchanged code raises a bare FileExistsError from makedirs); the byte accounting applies unchanged",
     "corrupt cache objects are unprotected (mode 0o644): a 0o444 object in a LocalHashFileDB is trusted by design",
     "a modification that preserves inode, mtime and size (top level) or path and mtime (inside a "
     "recorded directory) is invisible to the documented token and is never generated: the harness "
@@ -105,6 +106,8 @@ def cases(draw):
     }
     if target_kind == "tree":
         case["target"] = draw(gen.trees(max_files=6, max_depth=3, content=_content()))
+        # the whole root replaced by a plain file (file -> directory change of the root at checkout)
+        case["root_file"] = draw(st.sampled_from([None] * 15 + [0, 1]))
     else:
         case["target"] = draw(_content())
     return case
@@ -314,6 +317,14 @@ def run_checkout_case(case, ctx):  # noqa: C901, PLR0912, PLR0915
                         os.mkdir(ws)
                     apply_edits(ws, case["edits"], palette, clock, labels)
 
+            root_file = case.get("root_file") if case["target_kind"] == "tree" else None
+            if root_file is not None:
+                if os.path.lexists(ws):
+                    _force_unlink(ws)
+                gen.write_file(ws, gen.content_bytes(palette[root_file % len(palette)][1]))
+                clock.stamp(ws)
+                labels.add("edit:root-dir->file")
+
             # target objects dropped from the cache (only when no workspace file points into it by name)
             has_symlink = any(
                 os.path.islink(os.path.join(r, f)) for r, _, fl in os.walk(ws) for f in fl
@@ -351,6 +362,8 @@ def run_checkout_case(case, ctx):  # noqa: C901, PLR0912, PLR0915
             }
             unrec = {rel: role for rel, role in conflicts.items()
                      if not recoverable(before[rel], intact_before)}
+            if root_file is not None:
+                labels.add("root-file:" + ("unrecoverable" if unrec else "recoverable"))
             corrupt_names = {md5(gen.content_bytes(c)) for role, c in palette if role == "corrupt"}
 
             prompts = []
@@ -367,12 +380,18 @@ def run_checkout_case(case, ctx):  # noqa: C901, PLR0912, PLR0915
                 outcome, exc = "PromptError", e
             except (LinkError, CheckoutError) as e:
                 outcome, exc = type(e).__name__, e
-            except FileNotFoundError as e:
-                # a target object is missing from the cache and the link type is symlink: the link is
-                # created dangling and the following stat fails. An error, nothing to do with user data.
-                if "target-object-dropped" not in labels:
+            except Exception as e:  # noqa: BLE001
+                if root_file is not None:
+                    # a plain file at the root of a tree target: the unchanged code refuses with a bare
+                    # FileExistsError from makedirs. Any error counts as the refusal for this shape;
+                    # the byte accounting below is what matters.
+                    outcome, exc = "refused:" + type(e).__name__, e
+                elif isinstance(e, FileNotFoundError) and "target-object-dropped" in labels:
+                    # a target object is missing from the cache and the link type is symlink: the link
+                    # is created dangling and the following stat fails. Nothing to do with user data.
+                    outcome, exc = "FileNotFoundError", e
+                else:
                     raise
-                outcome, exc = "FileNotFoundError", e
 
             after, dirs_after = snapshot(ws)
             _, intact_after = cache_snapshot(cpath)
